@@ -170,6 +170,45 @@ def do_mpe(seqs):
     return out
 
 
+# ---- MPE with note identity: handles are numbered by the note_on call that returned them ---------------------
+def do_mpev(seqs):
+    """call = [0, n, v] device.note_on (its handle gets the number of the note_on call, 0-based; None when the device
+    returned None), [1, n] device.note_off(n), [5, i] handle i .note_off(), [2, i, x] / [3, i, x] / [4, i, k, x] handle i
+    .pitch_bend / .aftertouch / .control.  A call on a handle that does not exist is skipped (nothing can be sent)."""
+    out = []
+    for seq in seqs:
+        dev = MPEOutputDevice("verif-fake-port")
+        port = dev.midi
+        handles = []
+        res = []
+        for c in seq:
+            k = c[0]
+            port.take()
+            exc, ret, chan = None, None, None
+            if k == 0:
+                exc, ret = call(dev.note_on, c[1], c[2])
+                handles.append(ret if exc is None else None)
+                if ret is not None:
+                    chan = getattr(ret, "channel", None)
+            elif k == 1:
+                exc, _ = call(dev.note_off, c[1])
+            else:
+                h = handles[c[1]] if 0 <= c[1] < len(handles) else None
+                if h is not None:
+                    if k == 5:
+                        exc, _ = call(h.note_off)
+                    elif k == 2:
+                        exc, _ = call(h.pitch_bend, c[2])
+                    elif k == 3:
+                        exc, _ = call(h.aftertouch, c[2])
+                    elif k == 4:
+                        exc, _ = call(h.control, c[2], c[3])
+            res.append({"raise": exc, "sent": [b for (_, b) in port.take()], "chan": chan,
+                        "none": (k == 0 and exc is None and ret is None)})
+        out.append(res)
+    return out
+
+
 # ---- several devices alive in one process, interleaved calls ----------------------------------------------
 def do_multi(cases):
     """case = {"devs": ["mpe"|"midi"|"osc", ...], "lazy": bool, "calls": [[d, call], ...]}: device d is an object of class
@@ -483,6 +522,8 @@ def main():
             out["osch"] = do_osch(req["osch"])
         if "mpe" in req:
             out["mpe"] = do_mpe(req["mpe"])
+        if "mpev" in req:
+            out["mpev"] = do_mpev(req["mpev"])
         if "multi" in req:
             out["multi"] = do_multi(req["multi"])
         if "file" in req:
